@@ -500,7 +500,7 @@ def work_items(tier, seed):
         for dname, d in dsets[1::2]:
             if len(f) * len(d) > 24 or len(f) < 2:
                 continue
-            for scale in (1e-12, 1e9):
+            for scale in (1e-12, 1e9, 1e-5, 3e-7):  # the last two: significant heights of centimetres and millimetres (just above the 1 mm mask of sw)
                 items.append(dict(kind="structured1", f=f, d=d, alpha=alpha, layout="site", dtype="float64", grid=fname + "/" + dname + "/x%g" % scale, scale=scale))
     # 1D spectra (no dir dimension at all)
     for fname, f in fams:
